@@ -260,6 +260,10 @@ def gen_cases(ctx, root):
         [("uploadtrunc", sb.encode() + b"/file.txt\x00")],
         [("upload", b"/up.bin"), ("uploaddone", b""), ("uploadtrunc", sb.encode() + b"/big.txt\x00")],
         [("upload", b"/up.bin"), ("upload", b"/up2.bin"), ("teardown", b"")],
+        # upload data with sizes 0/0 = the end-of-upload marker; these kinds send no modification time: truncated message -> drop
+        [("upload", b"/sub/n"), ("uploaddata", b""), ("uploaddone", b"data"), ("list", b"/dir1"), ("uploaddatac", b"")],
+        [("upload", b"/up.bin"), ("uploaddatac", b""), ("list", b"/")],
+        [("uploaddata", b""), ("upload", b"/up.bin")],
         # a listing whose spelled-out path plus an entry name exceeds fullpath[PATH_MAX]
         [("mkdir", b"/" + b"n" * 250), ("list", b"/" + b"./" * 1920)],
         [("mkdir", b"/" + b"n" * 250), ("list", b"/" + b"./" * 1000), ("list", b"/")],
